@@ -343,6 +343,8 @@ def shards(tier, seed):
     out += split_shards("random", 5000 if tier == "quick" else 160000, 4 if tier == "quick" else 12)
     out += [{"kind": "dicts"}]
     out += split_shards("algebra", 1500 if tier == "quick" else 40000, 2 if tier == "quick" else 6)
+    if tier == "thorough":
+        out.append({"kind": "repo_tests_under_contracts"})
     return out
 
 
@@ -350,7 +352,7 @@ def requirements(tier):
     return {"constructibility_checked": 10000, "ill_formed_rejected": 3000, "declared_keys_checked": 2000, "wrong_key_set_rejected": 10000,
             "application_checked": 1000, "algebra_checked": 1000, "algebra_checked_constructible": 50, "dict_mutator_rejected": 35,
             "dict_shape_contradiction_rejected": 100, "dict_valid_shape_accepted": 20, "type_seen:G": 50, "type_seen:J": 50, "type_seen:E": 50,
-            "type_seen:T": 20, "atoms_enumerated": 88, "depth1_enumerated": 7803}
+            "type_seen:T": 20, "atoms_enumerated": 88, "depth1_enumerated": 7803, **({"repo_tests_contract_evaluations": 1000} if tier == "thorough" else {})}
 
 
 def rand_term(rng, d):
@@ -462,6 +464,9 @@ def run_shard(shard, ctx):
             ctx.evaluated(fingerprint(["alg", a, b, c]), nontrivial=True)
     elif kind == "dicts":
         judge_dicts(w, ctx)
+    elif kind == "repo_tests_under_contracts":
+        from .C11 import run_repo_tests
+        run_repo_tests(ctx, which="transform")
 
 
 # ------------------------------------------------------------------------------------------------ (f) dictionaries
